@@ -113,3 +113,125 @@ PROPERTY = PropertySpec(
     assumptions=['np.roll is specified only where the source index lies inside the array (weak contract numpy.roll)',
                  'np.log is applied element-wise and returns a fresh array (dlog is checked in the bounded layer only)'],
 )
+
+
+class EvalBounded(BoundedCheck):
+    """container.eval(): name precedence, backticked label indexes (inclusive slices), positional indexes, AttributeError, no mutation."""
+    name = 'c16.eval'
+    props = ('C16',)
+    bound_quick = ('containers over 5 span types (range with origin, strings, NumPy ints, pandas Index, annual PeriodIndex) with variables X, Y, Z and one variable '
+                   'named like a helper (exp / lag); 700 seeded random expressions: arithmetic, helpers, positional indexes/slices, backticked label indexes/slices, '
+                   'caller locals; undefined names')
+    bound_thorough = '10000 expressions'
+    required_covers = ('backtick-index', 'backtick-slice', 'positional-only', 'mixed-positional-and-backtick', 'locals-override', 'variable-overrides-helper', 'undefined-name')
+
+    def cases(self, tier, seed):
+        rnd = random.Random(seed + 16)
+        for i in range(10000 if tier == 'thorough' else 700):
+            yield {'span': rnd.choice(['range', 'list-str', 'np-int', 'pd-index', 'pd-period-A']), 'seed': rnd.randrange(10 ** 6)}
+
+    def check(self, case, res: BoundedResult):
+        import copy
+        import fsic
+        import fsic.functions as F
+        from props.containers_bounded import span_catalogue
+        rnd = random.Random(case['seed'])
+        n = 6
+        span = span_catalogue(n)[case['span']]
+        labels = list(span)
+        c = fsic.core.VectorContainer(span)
+        data = {}
+        helper_var = rnd.choice(['exp', 'lag', None])
+        names = ['X', 'Y', 'Z'] + ([helper_var] if helper_var else [])
+        for nm in names:
+            data[nm] = np.array([rnd.choice([0.5, 1.0, 1.5, 2.0, 3.0]) + rnd.random() for _ in range(n)])
+            c.add_variable(nm, data[nm].copy())
+        before_builtins = dict(F.builtins)
+        out = []
+
+        def lab(i):
+            return '`' + str(labels[i]) + '`'
+
+        def pos_expr():
+            v = rnd.choice(['X', 'Y', 'Z'])
+            r = rnd.random()
+            if r < 0.25:
+                return v, data[v], 'vec'
+            if r < 0.4:
+                i = rnd.randrange(-n, n)
+                return f'{v}[{i}]', data[v][i], 'positional'
+            if r < 0.55:
+                a, b = sorted(rnd.sample(range(n), 2))
+                return f'{v}[{a}:{b}]', data[v][a:b], 'positional'
+            if r < 0.75:
+                i = rnd.randrange(n)
+                return f'{v}[{lab(i)}]', data[v][i], 'backtick-index'
+            a, b = sorted(rnd.sample(range(n), 2))
+            st = rnd.choice([None, 2])
+            return f'{v}[{lab(a)}:{lab(b)}' + (f':{st}]' if st else ']'), data[v][a:b + 1:st], 'backtick-slice'
+        kinds = set()
+        t1, v1, k1 = pos_expr()
+        kinds.add(k1)
+        expr, want = t1, v1
+        if rnd.random() < 0.6:
+            t2, v2, k2 = pos_expr()
+            if np.shape(v2) == np.shape(want) or np.ndim(v2) == 0 or np.ndim(want) == 0:
+                op = rnd.choice(['+', '-', '*'])
+                expr = f'{expr} {op} {t2}'
+                want = {'+': want + v2, '-': want - v2, '*': want * v2}[op]
+                kinds.add(k2)
+        locs = None
+        r = rnd.random()
+        if r < 0.15:
+            expr = f'lag({expr}, 1)' if np.ndim(want) == 1 and helper_var != 'lag' else expr
+            if expr.startswith('lag('):
+                want = np.concatenate([[np.nan], want[:-1]]) if len(want) else want
+        elif r < 0.3:
+            res.cover('locals-override')
+            locs = {'X': np.full(n, 100.0), 'k': 2.0}
+            if 'X' in expr:
+                return out      # keep the oracle simple: locals cases use their own expression
+            expr, want = 'X * k + Y', np.full(n, 100.0) * 2.0 + data['Y']
+        elif r < 0.4 and helper_var:
+            res.cover('variable-overrides-helper')
+            expr, want = f'{helper_var} + X', data[helper_var] + data['X']
+        elif r < 0.5:
+            res.cover('undefined-name')
+            try:
+                c.eval('X + Q_undefined')
+                out.append(Violation('an undefined name is reported as AttributeError naming it', 'c16.eval.undefined-accepted', case, 'AttributeError', 'returned'))
+            except AttributeError as ex:
+                if 'Q_undefined' not in str(ex):
+                    out.append(Violation('an undefined name is reported as AttributeError naming it', 'c16.eval.undefined-not-named', case, 'Q_undefined', str(ex)[:80]))
+            except Exception as ex:  # noqa: BLE001
+                out.append(Violation('an undefined name is reported as AttributeError', f'c16.eval.undefined:{type(ex).__name__}', case, 'AttributeError', type(ex).__name__))
+            return out
+        has_bt = '`' in expr
+        has_pos_slice = any(k == 'positional' for k in kinds) and ':' in ''.join(p for p in expr.split('`')[::2])
+        for k in kinds:
+            res.cover(k if not (k == 'positional' and has_bt) else 'mixed-positional-and-backtick')
+        if not has_bt and 'positional' in kinds:
+            res.cover('positional-only')
+        res.nontrivial.add(expr + case['span'])
+        jcase = dict(case, expr=expr)
+        try:
+            got = c.eval(expr, locals=locs)
+        except Exception as ex:  # noqa: BLE001
+            out.append(Violation('eval returns what Python/NumPy computes for the expression', f'c16.eval.raises:{type(ex).__name__}', jcase, np.asarray(want).tolist(),
+                                 str(ex)[:80], 'eval'))
+            return out
+        if not _same(got, want):
+            sig = 'c16.eval.value'
+            if has_bt and has_pos_slice:
+                sig += ':positional-slice-shifted-when-backtick-present'
+            out.append(Violation('backticked labels select what label indexing selects; positional indexes keep their Python meaning; names bind to their series',
+                                 sig, jcase, np.asarray(want).tolist(), np.asarray(got).tolist(), 'eval'))
+        for nm in names:
+            if not _same(c[nm], data[nm]):
+                out.append(Violation('evaluation never alters the container', 'c16.eval.mutates-container', jcase, data[nm].tolist(), c[nm].tolist()))
+        if dict(F.builtins) != before_builtins or any(F.builtins[k] is not before_builtins[k] for k in before_builtins):
+            out.append(Violation('evaluation never alters the package-level helper table', 'c16.eval.mutates-builtins', jcase, sorted(before_builtins), sorted(F.builtins)))
+        return out
+
+
+PROPERTY.bounded.append(EvalBounded())
